@@ -50,6 +50,7 @@ type sim struct {
 	cutAck    int
 	cutOpen   bool
 	cutHello  bool
+	cutReq    bool // the next Hello never reaches R
 	pubBase   int // publishes recorded by earlier incarnations of R
 }
 
@@ -78,6 +79,10 @@ func (c *fakeClient) Hello(ctx context.Context, in *fed.ClientHello, _ ...grpc.C
 	case <-s.stop:
 		return nil, errCut
 	default:
+	}
+	if s.cutReq {
+		s.cutReq = false
+		return nil, errCut
 	}
 	resp, err := s.R.F.Hello(metadata.NewIncomingContext(context.Background(), metadata.Pairs("node_name", "S")), in)
 	if err != nil {
@@ -129,7 +134,7 @@ func (c *cliStream) Send(e *fed.Event) error {
 		s.cutSend = -1
 		s.mu.Unlock()
 		// let R finish what it already received, then lose the connection
-		for i := 0; i < 4000; i++ {
+		for i := 0; i < 100000; i++ {
 			s.mu.Lock()
 			idle := s.srvIdle
 			s.mu.Unlock()
@@ -283,7 +288,7 @@ func (s *sim) quiet() bool {
 }
 
 func (s *sim) waitQuiet() bool {
-	deadline := time.Now().Add(1500 * time.Millisecond)
+	deadline := time.Now().Add(15 * time.Second)
 	stable := 0
 	for time.Now().Before(deadline) {
 		if s.quiet() {
@@ -353,7 +358,7 @@ func (s *sim) Step(line string) string {
 		s.setupPeer()
 		s.newR()
 		s.lk, s.connected = nil, false
-		s.cutSend, s.cutAck, s.cutOpen, s.cutHello = -1, -1, false, false
+		s.cutSend, s.cutAck, s.cutOpen, s.cutHello, s.cutReq = -1, -1, false, false, false
 		s.mu.Unlock()
 		return "ok"
 	}
@@ -399,6 +404,11 @@ func (s *sim) Step(line string) string {
 	case f[0] == "cut-hello-resp" && len(f) == 1:
 		s.mu.Lock()
 		s.cutHello = true
+		s.mu.Unlock()
+		return "armed"
+	case f[0] == "cut-hello-req" && len(f) == 1:
+		s.mu.Lock()
+		s.cutReq = true
 		s.mu.Unlock()
 		return "armed"
 	case f[0] == "break" && len(f) == 1:
